@@ -106,6 +106,13 @@ def emit_logics(chk, g, facts, rules, pid='C01'):
             f'fl_classical := {b(classical)}; fl_rules := [{"; ".join(good_tf)}]; fl_grules := [{"; ".join(good_g)}]; '
             f'fl_refl := {b("Reflexive" in names)}; fl_trans := {b("Transitive" in names)}; '
             f'fl_sym := {b("Symmetric" in names)}; fl_serial := {b("Serial" in names)} |}}.')
+        all_tf = [x for (nm, x) in tf_names[n]]
+        all_g = [x for (nm, x) in g_names[n]]
+        defs.append(
+            f'Definition FLA_{i} : flogic := {{| fl_S := {sem_of(L)}; fl_hd := {b(L["has_designation"])}; fl_ks := {ks}; '
+            f'fl_classical := {b(classical)}; fl_rules := [{"; ".join(all_tf)}]; fl_grules := [{"; ".join(all_g)}]; '
+            f'fl_refl := {b("Reflexive" in names)}; fl_trans := {b("Transitive" in names)}; '
+            f'fl_sym := {b("Symmetric" in names)}; fl_serial := {b("Serial" in names)} |}}.')
         if base_ok:
             ctac = 'intros _; vm_compute; auto' if classical else 'intro H; discriminate H'
             ntac = 'intro H; discriminate H' if L['has_designation'] else 'intros _; vm_compute; reflexivity'
